@@ -472,6 +472,82 @@ class LongLines(Part):
         return res
 
 
+class UndoAfterOtherJobs(Part):
+    name = "fresh_undo_after_jobs_with_other_options"
+    desc = "every sequence of <=2 earlier jobs with other options (networks, prefixes, salt, host bits, library or main) before an anonymizing job in one process; the undo is done in a restored (fresh) state: every address comes back"
+
+    TARGETS = [{}, {"nets": ["11.11.0.0/16"]}, {"B": 8}]
+
+    def __init__(self, tier, seed):
+        self.tier, self.seed = tier, seed
+
+    def cases(self):
+        from props import c03
+
+        return [{"first": i, "target": t} for i in range(len(c03.JOBS)) for t in range(len(self.TARGETS))]
+
+    def _fa(self, job, undo):
+        from netconan.anonymize_files import FileAnonymizer
+
+        kw = {}
+        if job.get("nets") is not None:
+            kw["preserve_networks"] = list(job["nets"])
+        if job.get("prefixes") is not None:
+            kw["preserve_prefixes"] = list(job["prefixes"])
+        with seams.capture_logs():
+            return FileAnonymizer(anon_pwd=False, anon_ip=not undo, undo_ip_anon=undo, salt="targetSalt",
+                                  preserve_suffix_v4=job.get("B", 0), preserve_suffix_v6=job.get("B", 0), **kw)
+
+    def run(self, case):
+        import io
+
+        from props import c03
+
+        res = Res()
+        root = seams.scratch_dir("c02j")
+        text = c03.JOB_TEXT + "peer 20.20.5.5\npeer 20.21.1.1\npeer 16.1.2.3\n"
+        target = self.TARGETS[case["target"]]
+        try:
+            seqs = [[case["first"]]] + [[case["first"], j] for j in range(len(c03.JOBS))]
+            if "seq" in case:
+                seqs = [case["seq"]]
+            for n, seq in enumerate(seqs):
+                seams.restore_globals()
+                for k, j in enumerate(seq):
+                    c03.run_job(c03.JOBS[j], root, "%d-%d" % (n, k))
+                fwd = io.StringIO()
+                with seams.capture_logs():
+                    self._fa(target, False).anonymize_io(io.StringIO(text), fwd)
+                seams.restore_globals()                      # the undo happens somewhere else, later
+                back = io.StringIO()
+                with seams.capture_logs():
+                    self._fa(target, True).anonymize_io(io.StringIO(fwd.getvalue()), back)
+                res.states += 1
+                res.transitions += len(seq) + 2
+                res.evals += 1
+                res.nt((tuple(seq), case["target"]))
+                res.out(fwd.getvalue())
+                if back.getvalue() != text:
+                    a, b = text.split("\n"), back.getvalue().split("\n")
+                    i = [k for k in range(min(len(a), len(b))) if a[k] != b[k]][:1]
+                    f = fwd.getvalue().split("\n")
+                    # (an image that is mask-shaped is left alone by undo: the carve-out of the statement)
+                    tok = f[i[0]].split()[1] if i and len(f[i[0]].split()) > 1 else ""
+                    v = refs.v4_token_value(tok)
+                    if v is not None and refs.is_mask32(v):
+                        continue
+                    res.violation("fresh-undo-wrong-after-other-jobs",
+                                  "after jobs %r, a job with options %r wrote %r for %r; a fresh undo gives %r" % (
+                                      [c03.JOBS[j] for j in seq], target, f[i[0]] if i else None, a[i[0]] if i else None,
+                                      b[i[0]] if i else None), dict(case, seq=list(seq)))
+            if "seq" not in case:
+                res.samples.append({"first": c03.JOBS[case["first"]], "target": target, "sequences": len(seqs)})
+        finally:
+            shutil.rmtree(root, ignore_errors=True)
+            seams.restore_globals()
+        return res
+
+
 def parts(tier, seed):
     return [GraphPart(tier, seed), ColdInversePart(tier, seed), LinePart(tier, seed), LongHistory(tier, seed),
-            FilePart(tier, seed), LongLines(tier, seed)]
+            FilePart(tier, seed), LongLines(tier, seed), UndoAfterOtherJobs(tier, seed)]
